@@ -306,8 +306,9 @@ Definition items_step (E : env) (i : idx) (p : key) (sh : bool) : idx * res (lis
    entry that carries a .dir hash and is not loaded (_load_dir_keys) *)
 Definition pathok (f : key -> bool) (k : key) : bool :=
   match k with [] => false | _ => forallb f (inits_ne k) end.
+(* an entry at the root key is never yielded by a view, but its directory is loaded like any other *)
 Definition view_sel (f : key -> bool) : sel :=
-  fun x => pathok f (fst x) && hi_isdir (e_hash (snd x)).
+  fun x => (match fst x with [] => true | _ => pathok f (fst x) end) && hi_isdir (e_hash (snd x)).
 Definition view_items_q (f : key -> bool) (i : idx) : res (list (key * option entry)) :=
   Ok (map (fun k => (k, lookupS i k)) (usort key_ltb (filter (pathok f) (map fst i)))).
 Definition view_items_step (E : env) (i : idx) (f : key -> bool) :=
@@ -557,8 +558,7 @@ Fixpoint nodupb (l : list key) : bool :=
   end.
 Definition wfb (E : env) (i : idx) : bool :=
   forallb (fun x => negb (loadable E x) ||
-                    forallb (fun y => negb (is_prefix (fst x) (fst y)) || key_eqb (fst y) (fst x)) i) i
-  && forallb (fun x => match fst x with [] => false | _ => true end) i.
+                    forallb (fun y => negb (is_prefix (fst x) (fst y)) || key_eqb (fst y) (fst x)) i) i.
 Definition tree_rowsb (rows : list lrow) : bool :=
   forallb (fun r1 => forallb (fun r2 => negb (is_prefix (r_key r1) (r_key r2))
                                         || key_eqb (r_key r1) (r_key r2)) rows) rows.
